@@ -135,11 +135,12 @@ class CumSumSoftPlusTransform(Transform):
         return torch.log(x.cumsum(-1).exp() + 1.0)
 
     def _inverse(self, y):
-        y_log = y.log()
+        y_log = torch.expm1(y).log()
         return torch.cat((y_log[..., :1], y_log[..., 1:] - y_log[..., :-1]), -1)
 
     def log_abs_det_jacobian(self, x, y):
-        return torch.zeros(x.shape[:-1])
+        # triangular Jacobian with diagonal sigmoid(cumsum(x))
+        return -softplus(-x.cumsum(-1)).sum(-1)
 
 
 @register_class
